@@ -109,7 +109,14 @@ def run(P, R, tier):
                 has_expected = any(any(p in o for p in g.params if p not in listed) for o in origins)
                 if has_listing and has_expected and isinstance(t.ops[0], ast.NotEq):
                     gates.append(s)
-        dir_reads = [c for c in astq.own_calls(g) if astq.is_call_to(P, g, c, rp) and c.args and isinstance(c.args[0], ast.Name) and c.args[0].id in listed]
+        # every read of sub-part data in the helper: the listed directory itself, or the files named by the listing
+        def _from_listing(e):
+            if isinstance(e, ast.Name) and e.id in listed:
+                return True
+            t_ = astq.trace(g, e) if isinstance(e, ast.Name) else e
+            o_ = norm(t_) if isinstance(t_, ast.AST) else ''
+            return '.ls(' in o_ or '.listdir(' in o_
+        dir_reads = [c for c in astq.own_calls(g) if astq.is_call_to(P, g, c, rp) and c.args and _from_listing(c.args[0])]
         R.floor('C19.b', f'reads of the listed directory in {g.name}', len(dir_reads), 1)
         for c in dir_reads:
             rn = C.node(_stmt(c))
@@ -188,7 +195,7 @@ def run(P, R, tier):
 
         def captured(name, depth=0, g=g, local=local):
             if name in g.params:
-                return False
+                return True       # a retry calls again with the same argument objects: they persist across attempts like captured state
             if name not in local:
                 return True
             if depth > 4:
@@ -222,7 +229,7 @@ def run(P, R, tier):
                             dirty.append(n_)
         if dirty:
             for c in dirty:
-                R.bad('C19.d', g, c, f'retried function {g.name} mutates captured state `{norm(c)}`: every retry repeats the mutation (e.g. duplicated row groups in _metadata)')
+                R.bad('C19.d', g, c, f'retried function {g.name} mutates state that outlives the attempt (captured or passed in) `{norm(c)}`: every retry repeats the mutation (e.g. duplicated row groups in _metadata)')
         else:
             R.ok('C19.d', g, None, f'retried function {g.name} mutates no captured state (re-entrant)', construct=f'@retry {g.name} re-entrant')
     R.floor('C19.d', 'retried helpers', nre, 6)
